@@ -9,6 +9,7 @@ package main
 // obligation of the properties that rest on that layout. Unknown statement shapes are refused.
 
 import (
+	"go/constant"
 	"fmt"
 	"go/ast"
 	"go/token"
@@ -722,6 +723,45 @@ func genLayoutEncrypt() (string, error) {
 			return "", lerr
 		}
 		fmt.Fprintf(&sb, "/-- the labels of the `blake3.NewDeriveKey(label + context)` calls of `%s`, in source order -/\ndef %s : List Bytes :=\n  [%s]\n\n", fn.name, fn.def, strings.Join(labels, ",\n   "))
+	}
+	// the size bound of a sealed message: the constant, and where each direction checks it
+	mv, err := constValue(rel2, "MaxEncryptedMessageSize")
+	if err != nil {
+		return "", err
+	}
+	mu, ok := constant.Uint64Val(mv)
+	if !ok {
+		return "", fmt.Errorf("%s: MaxEncryptedMessageSize is not an unsigned integer constant", rel2)
+	}
+	fmt.Fprintf(&sb, "/-- `MaxEncryptedMessageSize` -/\ndef maxEncryptedMessageSize : Nat := %d\n\n", mu)
+	fset2, f2, err := parseFile(rel2)
+	if err != nil {
+		return "", err
+	}
+	for _, fn := range []struct{ name, def string }{{"EncryptToEd25519", "encryptSizeGuard"}, {"DecryptWithEd25519", "decryptSizeGuard"}} {
+		fd := findFunc(f2, fn.name)
+		if fd == nil {
+			return "", fmt.Errorf("%s: %s not found", rel2, fn.name)
+		}
+		// top-level `if <cond mentioning MaxEncryptedMessageSize> { return nil, ErrMessageTooLarge }`, and the
+		// top-level statements before it that call into s2 (the guard must precede the decompression)
+		var guards, s2Before []string
+		for _, st := range fd.Body.List {
+			if is, ok := st.(*ast.IfStmt); ok && strings.Contains(exprString(fset2, is.Cond), "MaxEncryptedMessageSize") {
+				if is.Init != nil || is.Else != nil || !wrtcReturnsErr(fset2, is.Body) {
+					return "", fmt.Errorf("%s: %s: the size guard is not `if cond { return nil, err }`", rel2, fn.name)
+				}
+				guards = append(guards, exprString(fset2, is.Cond)+" => "+exprString(fset2, is.Body.List[0]))
+				continue
+			}
+			if len(guards) == 0 {
+				for _, c := range wrtcCalls(fset2, st, "s2.Decode", "s2.DecodedLen", "s2.EncodeBetter", "s2.Encode") {
+					s2Before = append(s2Before, exprString(fset2, c))
+				}
+			}
+		}
+		fmt.Fprintf(&sb, "/-- the size guard(s) of `%s` (top-level statements) -/\ndef %s : List String := [%s]\n", fn.name, fn.def, strings.Join(mapStr(guards, strconv.Quote), ", "))
+		fmt.Fprintf(&sb, "/-- the calls into s2 that `%s` makes before its size guard -/\ndef %sS2Before : List String := [%s]\n\n", fn.name, fn.def, strings.Join(mapStr(s2Before, strconv.Quote), ", "))
 	}
 	sb.WriteString(footer("LayoutEncrypt"))
 	return sb.String(), nil
